@@ -27,7 +27,7 @@ from vf.ref import poly
 from vf.ref import units as RU
 
 ID = 'C09'
-N = {'quick': 10000, 'thorough': 400000}
+N = {'quick': 9000, 'thorough': 400000}
 NT_RULE = ('three case kinds drawn per case index after a directed list: (clamp) C08 reactions of empirical species as '
            'ChemkinReaction / SurfaceReaction with 0-2 TS species, reaction enthalpy and TS offset either free or '
            'steered to -2..+2 eV / -1..+3 eV around the reactants; (bep) reactions of all three classes whose TS is a '
@@ -42,6 +42,15 @@ REQUIRED_ORACLES = ['B1', 'B2', 'B3', 'B1u', 'B2u', 'B3u', 'INV']
 _WIN = ['win:%s:%s:%s' % (q, d, w) for q in 'HG' for d in ('fwd', 'rev') for w in ('zero', 'barrier', 'delta')]
 DESCRIPTORS = ['delta_H', 'rev_delta_H', 'reactants_H', 'products_H',
                'delta_E', 'rev_delta_E', 'reactants_E', 'products_E']
+# constructor options that do not appear in the statement's formulas: they must not change H_act / G_act / A
+OPTIONS = {
+    'ChemkinReaction': {'is_adsorption': [False, True], 'beta': ['default', 0, 0.5, 1, 2],
+                        'sticking_coeff': ['default', 0.1, 1.0]},
+    'SurfaceReaction': {'is_adsorption': [False, True], 'beta': ['default', 0, 0.5, 1, 2],
+                        'sticking_coeff': ['default', 0.1, 1.0], 'use_motz_wise': ['default', True],
+                        'direction': ['default', 'cleavage', 'synthesis'], 'id': ['default', 'r_0007', 12]},
+}
+OPT_CLASSES = ['opt:%s:%s=%s' % (c, k, v) for c in sorted(OPTIONS) for k in sorted(OPTIONS[c]) for v in OPTIONS[c][k]]
 REQUIRED_CLASSES = (['B1:ChemkinReaction', 'B1:SurfaceReaction', 'B1:ts', 'B1:no_ts', 'B1:bep_ts', 'B1:ts_attached_later', 'exo', 'endo',
                      'barrierless', 'high_barrier'] + _WIN +
                     ['desc:' + d for d in DESCRIPTORS] +
@@ -54,7 +63,13 @@ REQUIRED_CLASSES = (['B1:ChemkinReaction', 'B1:SurfaceReaction', 'B1:ts', 'B1:no
                      'sites:2', 'units:str', 'units:Units', 'gas+surf', 'bulk_reactant', 'm:None',
                      'bulk_reactant:ChemkinReaction', 'bulk_reactant:SurfaceReaction',
                      'names:substring_of_bulk:ChemkinReaction', 'names:substring_of_bulk:SurfaceReaction',
-                     'names:superstring_of_bulk'])
+                     'names:superstring_of_bulk'] + OPT_CLASSES +
+                    ['B1:adsorption:no_ts:endo_dir:ChemkinReaction', 'B1:adsorption:no_ts:endo_dir:SurfaceReaction',
+                     'B1:adsorption:ts', 'B1:E_act:no_ts'] +
+                    ['A:%s:beta=%s:%s' % (c, b, t) for c in ('ChemkinReaction', 'SurfaceReaction')
+                     for b in ('default', 0, 0.5, 1, 2) for t in ('ts', 'no_ts')] +
+                    ['A:%s:is_adsorption=%s' % (c, a) for c in ('ChemkinReaction', 'SurfaceReaction')
+                     for a in (False, True)])
 REQUIRED_PROBES = ['ChemkinReaction.get_HoRT_act', 'ChemkinReaction.get_H_act', 'ChemkinReaction.get_GoRT_act',
                    'ChemkinReaction.get_G_act', 'SurfaceReaction.get_HoRT_act', 'SurfaceReaction.get_H_act',
                    'SurfaceReaction.get_GoRT_act', 'SurfaceReaction.get_G_act', 'BEP._get_descriptor_val',
@@ -88,6 +103,12 @@ ASSUMPTIONS = [
     'Nasa9/Shomate have no cat_site attribute and _get_n_surf raises AttributeError on them -- telemetry, not asserted)',
     'SurfaceReaction.get_A with no surface reactant refuses with ValueError (no site density available); counted as '
     'telemetry, not as a violation; get_A(rev=True) is not driven for the site-density clauses',
+    'constructor options that are not in the statement\'s formulas (is_adsorption, beta, sticking_coeff, and for '
+    'SurfaceReaction use_motz_wise, direction, id) are swept as a stratum on the clamp, bep and site cases: H_act, G_act '
+    'and A are compared with the same species-based references whatever their value (preset A / Ea are not generated)',
+    'ChemkinReaction without a transition state: get_EoRT_act(del_m) = clamped reaction enthalpy + (1 - del_m) and '
+    'get_E_act(del_m=1) its dimensional form (documented in its docstring); not driven on SurfaceReaction, which has no '
+    'such no-TS branch',
     'q-route of get_A (use_q=True) is only checked for sign; with empirical species get_q is the _ModelBase default 1',
     'exp arguments beyond +-650 are skipped (telemetry)',
 ]
@@ -193,12 +214,29 @@ def _steer(rng, spec):
     return out
 
 
+def _gen_options(rng, cls, **force):
+    out = {}
+    for k, vals in OPTIONS.get(cls, {}).items():
+        v = force[k] if k in force else rng.choice(vals)
+        if v != 'default':
+            out[k] = v
+    return out
+
+
+def _opt_classes(ctx, spec):
+    cls = spec['cls']
+    ex = spec.get('extra') or {}
+    for k in OPTIONS.get(cls, {}):
+        ctx.cls('opt:%s:%s=%s' % (cls, k, ex.get(k, 'default')))
+
+
 def _gen_clamp(rng, cls=None, has_ts=None):
     cls = cls or rng.choice(['ChemkinReaction', 'SurfaceReaction'])
     if has_ts is None:
         has_ts = rng.random() < 0.7
     spec = RG.gen_reaction(rng, flavor='empirical', cls=cls, ts=has_ts)
     spec['kind'] = 'clamp'
+    spec['extra'] = _gen_options(rng, cls)
     spec['cond'] = RG.gen_conditions(rng, spec)
     spec['steer'] = _steer(rng, spec) if rng.random() < 0.7 else None
     spec['units'] = rng.sample(ACT_UNITS, 2)
@@ -217,6 +255,7 @@ def _gen_bep(rng, descriptor=None, rcls=None, bep_cls=None, slope=None, shared=N
         flavor = 'empirical' if rcls == 'ChemkinReaction' else rng.choice(['statmech', 'mixed', 'empirical'])
     spec = RG.gen_reaction(rng, flavor=flavor, cls=rcls, ts=False)
     spec['kind'] = 'bep'
+    spec['extra'] = _gen_options(rng, rcls, direction='default')      # direction follows the BEP (see _build)
     spec['cond'] = RG.gen_conditions(rng, spec)
     if flavor != 'statmech' and rng.random() < 0.6:
         # realistic reaction enthalpy so that slope*dH and the intercept are comparable
@@ -266,7 +305,7 @@ PARTS = {0: [[]], 1: [[1]], 2: [[2], [1, 1]], 3: [[3], [2, 1], [1, 2], [1, 1, 1]
 
 
 def _gen_A_surface(rng, cls=None, n_surf=None, op=None, nsites=None, has_ts=None, route=None, bulk=None,
-                   related=None):
+                   related=None, options=None):
     cls = cls or rng.choice(['ChemkinReaction', 'SurfaceReaction'])
     if n_surf is None:
         n_surf = rng.choice([0, 1, 2, 2, 3, 3] if cls == 'ChemkinReaction' else [0, 1, 1, 2, 2, 2, 3, 3, 3])
@@ -336,7 +375,8 @@ def _gen_A_surface(rng, cls=None, n_surf=None, op=None, nsites=None, has_ts=None
         route = rng.choice(['no_entropy', 'entropy', 'entropy', 'default'])
     q, ln = rng.choice(QUANTITIES), rng.choice(LENGTHS)
     spec = {'kind': 'A_surface', 'cls': cls, 'flavor': 'empirical', 'species': species, 'reactants': reactants,
-            'products': products, 'ts': ts, 'extra': {}, 'sites': sites, 'site_of': site_of,
+            'products': products, 'ts': ts, 'extra': _gen_options(rng, cls, **(options or {})), 'sites': sites,
+            'site_of': site_of,
             'sden_operation': op or rng.choice(OPS), 'route': route, 'm': rng.choice([0, 0, 1]),
             'units': {'quantity': q, 'length': ln}, 'gas_phase_obj': rng.random() < 0.3,
             'factor': rng.choice([10.0, 0.1, 2.0, round(rng.uniform(0.2, 5), 3)])}
@@ -402,6 +442,36 @@ def directed(tier):
         r = random.Random('C09-directed-names-%d' % i)
         D.append(_gen_A_surface(r, cls=cls, n_surf=2 + i // 2, op=OPS[i], nsites=1 + i // 2, has_ts=False,
                                 route='no_entropy', bulk=bool(i % 2), related=True))
+    # --- B1: adsorption steps without a transition state, exo- and endothermic, both classes, all units;
+    #     every option value once on a reaction with a transition state
+    for cls in ('ChemkinReaction', 'SurfaceReaction'):
+        for a6p in (-14000.0, 5000.0):
+            D.append({'kind': 'clamp', 'cls': cls, 'flavor': 'empirical',
+                      'species': {'CO': _nasa('CO', 'G', 3.5, -13000.0, 24.0), 'PT(S)': _nasa('PT(S)', 'S', 0.5, 0.0, 0.0),
+                                  'CO(S)': _nasa('CO(S)', 'S', 4.5, -13000.0 + a6p, 9.0)},
+                      'reactants': [['CO', 1], ['PT(S)', 1]], 'products': [['CO(S)', 1]], 'ts': None,
+                      'extra': {'is_adsorption': True, 'sticking_coeff': 0.8}, 'cond': {'T': 450.0, 'P': 1.5},
+                      'steer': None, 'units': list(ACT_UNITS)})
+        for k, vals in sorted(OPTIONS[cls].items()):
+            for v in vals:
+                if v == 'default':
+                    continue
+                D.append({'kind': 'clamp', 'cls': cls, 'flavor': 'empirical',
+                          'species': {'A': _nasa('A', 'G', 3.5, -1000.0, 20.0), 'B(S)': _nasa('B(S)', 'S', 2.0, -2000.0, 3.0),
+                                      'C(S)': _nasa('C(S)', 'S', 4.5, 1500.0, 8.0),
+                                      'AB_TS': _nasa('AB_TS', 'S', 4.0, 900.0, 6.0)},
+                          'reactants': [['A', 1], ['B(S)', 1]], 'products': [['C(S)', 1]], 'ts': [['AB_TS', 1]],
+                          'extra': {k: v}, 'cond': {'T': 500.0}, 'steer': None, 'units': ['kcal/mol', 'J/mol']})
+    # --- B3: beta x is_adsorption x TS grid on both classes
+    i = 0
+    for cls in ('ChemkinReaction', 'SurfaceReaction'):
+        for beta in ('default', 0, 0.5, 1, 2):
+            for ads in (False, True):
+                i += 1
+                r = random.Random('C09-directed-beta-%d' % i)
+                D.append(_gen_A_surface(r, cls=cls, n_surf=1 + i % 3, op=OPS[i % 4], nsites=1 + i % 2,
+                                        has_ts=bool(i % 2) != ads, route='entropy',
+                                        options={'beta': beta, 'is_adsorption': ads}))
     # --- B3: n_surf x operation x class grid (deterministic generator seeds; pinned by construction)
     i = 0
     for cls in ('ChemkinReaction', 'SurfaceReaction'):
@@ -635,6 +705,31 @@ def _run_clamp(spec, ctx, rxn, objs):
                 if st['ts'] - max(st['reactants'], st['products']) > EV_K / T:
                     ctx.cls('high_barrier')
         _check_clamp(ctx, rxn, spec, q, cands, max(mag.values()), cond, spec['units'], has_ts)
+        if q != 'H':
+            continue
+        if (spec.get('extra') or {}).get('is_adsorption'):
+            if has_ts:
+                ctx.cls('B1:adsorption:ts')
+            elif max(cands[False]['delta'], cands[True]['delta']) > 0:
+                ctx.cls('B1:adsorption:no_ts:endo_dir:' + cls)
+        # without a transition state the Arrhenius energy of a ChemkinReaction is the clamped reaction
+        # enthalpy (+ 1 - del_m): "the (non-negative) reaction enthalpy is used as the barrier"
+        if cls == 'ChemkinReaction' and not has_ts:
+            ctx.cls('B1:E_act:no_ts')
+            sc = max(1.0, max(mag.values()))
+            for rev in (False, True):
+                want = max(cands[rev].values())
+                m = {'clause': 'B1', 'cls': cls, 'q': 'E', 'form': 'dimless', 'rev': rev, 'has_ts': False,
+                     'winner': _winner(cands[rev])}
+                for del_m in (1, 0):
+                    g = ctx.call('B1', m, rxn.get_EoRT_act, rev=rev, del_m=del_m, **cond)
+                    if g is not core.NOVALUE:
+                        ctx.close('B1', _f(g), want + (1 - del_m), 1e-10, m, scale=sc, del_m=del_m)
+                md = dict(m, form='dim')
+                for u in spec['units'][:2]:
+                    g = ctx.call('B1', md, rxn.get_E_act, units=u, rev=rev, del_m=1, **cond)
+                    if g is not core.NOVALUE:
+                        ctx.close('B1', _f(g) / (_R(u) * T), want, TOL, md, scale=sc, units=u)
 
 
 # =========================================================================== B2
@@ -968,6 +1063,10 @@ def _run_A_surface(spec, ctx, rxn, objs):
             k['units'] = units
         return ctx.call('B3', mech, r.get_A, **k)
 
+    if formula and (n_surf > 0 or cls == 'ChemkinReaction'):
+        ex = spec.get('extra') or {}
+        ctx.cls('A:%s:beta=%s:%s' % (cls, ex.get('beta', 'default'), 'ts' if entropy else 'no_ts'),
+                'A:%s:is_adsorption=%s' % (cls, bool(ex.get('is_adsorption'))))
     if formula and n_surf > 0:
         # classes of the cases whose A is actually compared with the formula
         if any(n in bulk for n, _ in spec['reactants']):
@@ -1042,6 +1141,8 @@ def _run_A_surface(spec, ctx, rxn, objs):
 # =========================================================================== driver
 def run_case(spec, ctx):
     kind = spec['kind']
+    if kind in ('clamp', 'bep', 'A_surface'):
+        _opt_classes(ctx, spec)
     if kind == 'clamp' and spec.get('ts_history') == 'attach_later' and spec.get('ts') and not spec.get('bep'):
         # built without a transition state, which is then assigned through the public setters: the
         # clamps must see it exactly as if it had been given to the constructor
